@@ -707,6 +707,7 @@ def rule_A7(ctx):
     r.analysed["character_classes"] = [_chr(c) for c in res["representatives"]]
     r.analysed["operator_alphabet"] = res["alphabet"]
     r.floor("(state, character class) steps interpreted", n, 100)
+    r.control("mutated_copy_without_buffer_pushes", control_a7(sh, set(res["alphabet"])))
     return r
 
 
@@ -747,6 +748,7 @@ def rule_A9(ctx):
         r.finding(sh.consumer["path"], "%s:%s" % (b, state), loc(sh.consumer["mir"]["blocks"][0]["term"]),
                   "in lexing state %s, consuming %s: %s on a path that records no error - the line / column reported for every later token is off" % (state, ", ".join(_chr(c) for c in codes[:6]) + (" ..." if len(codes) > 6 else ""), b.replace("-", " ")))
     r.floor("(state, character class) steps interpreted", n, 100)
+    r.control("mutated_copy_without_row_stores", control_a9(sh, set(res["alphabet"])))
     return r
 
 
@@ -845,4 +847,89 @@ def rule_A14(ctx):
         r.examine((nm,), True, {"field": nm, "reset_with_the_token": ok})
         if not ok:
             r.finding(sh.consumer["path"], "not-reset-with-token:%s" % nm, loc(sh.consumer["mir"]["blocks"][0]["term"]), "the lexer field `%s` is set to a constant and changed while a token is read, but the block that ends a token (state, buffer and type reset) does not reset it: its value carries over into the next token - e.g. the closing-quote count of the previous literal makes a following one-character literal end late, swallowing source text" % nm)
+    r.control("mutated_copy_with_one_reset_store_removed", control_a14(sh))
     return r
+
+
+# ---------------------------------------------------------------------------------------------------------------------
+# In-memory mutation controls.  A7 / A9 / A14 expect zero findings on the tree and the lexer is one of a kind (no fixture twin),
+# so each run also analyses a copy of the consumer's MIR with the behaviour under test removed - every push of the consumed
+# character into the token buffer, every store to the row counter, one store of the per-token reset - and must report it.
+def _mutated_shape(sh, edit):
+    """a copy of the lexer shape in which `edit` was applied to (copies of) every method except the starter and the trie walks;
+    the behaviour under test may sit in a helper the consumer calls"""
+    import copy
+    sh2 = copy.copy(sh)
+    ms, over = [], {}
+    for m in sh.methods:
+        if m is sh.starter or m["path"] in sh.walks:
+            ms.append(m)
+            continue
+        m2 = copy.deepcopy(m)
+        edit(m2)
+        ms.append(m2)
+        over[m2["path"]] = m2
+        if m is sh.consumer:
+            sh2.consumer = m2
+    sh2.methods = ms
+    sh2.F = _FnsOverlay(sh.F, over)
+    return sh2
+
+
+def control_a7(sh, alphabet):
+    def edit(f):
+        for b in f["mir"]["blocks"]:
+            t = b["term"]
+            if t["k"] == "Call" and (t.get("def") or "").endswith("String::push") and t.get("target") is not None:
+                b["term"] = {"k": "Goto", "target": t["target"], "sp": t.get("sp"), "exp": None}
+    sh2 = _mutated_shape(sh, edit)
+    for state in sh.state_variants:
+        try:
+            exits, viol, _v = run_step(sh2, state, 97, alphabet, False)
+        except (Unmodelled, ai.StateCapExceeded):
+            continue
+        for (slot, live, emitted, row_inc, col_inc, col_reset, notes, sc) in exits:
+            if slot != "Err" and live + emitted != 1:
+                return True
+    return False
+
+
+def control_a9(sh, alphabet):
+    row = sh.idx["row"]
+    def edit(f):
+        for b in f["mir"]["blocks"]:
+            b["stmts"] = [s for s in b["stmts"] if not (s["k"] == "Assign" and sh.field_of(s["place"]) == (row, True))]
+    sh2 = _mutated_shape(sh, edit)
+    for state in sh.state_variants:
+        try:
+            exits, viol, _v = run_step(sh2, state, 10, alphabet, False)
+        except (Unmodelled, ai.StateCapExceeded):
+            continue
+        for (slot, live, emitted, row_inc, col_inc, col_reset, notes, sc) in exits:
+            if slot != "Err" and row_inc != 1:
+                return True
+    return False
+
+
+def control_a14(sh):
+    regions, cands, _s = reset_analysis(sh)
+    if not cands or not regions:
+        return False
+    victim = sorted(cands)[-1]
+    def edit(f):
+        for b in f["mir"]["blocks"]:
+            b["stmts"] = [s for s in b["stmts"] if not (s["k"] == "Assign" and sh.field_of(s["place"]) == (victim, True) and s["rv"]["k"] == "Use" and "const" in s["rv"]["op"])]
+    sh2 = _mutated_shape(sh, edit)
+    regions2, cands2, _s2 = reset_analysis(sh2)
+    # with the constant stores gone the field is either no longer reset with the token, or no longer a counter that is reset at all
+    return victim not in cands2 or not all(victim in fields for _reg, fields in regions2)
+
+
+class _FnsOverlay:
+    def __init__(self, F, over):
+        self._F = F
+        self.fns = dict(F.fns)
+        self.fns.update(over)
+
+    def __getattr__(self, k):
+        return getattr(self._F, k)
